@@ -84,9 +84,9 @@ def answerCore (fs : List (String × String)) : E String := do
         | some v => if v.size = N then pure v else throw "D size"
         | none => throw "bad D"
       let c := cmpArr tolM Li m.L m.scale
-      if !c.ok then return s!"res=BROKEN:laplacian {describe c}"
+      if !c.ok then return s!"res=FAIL:laplacian-differs-from-model {describe c}"
       let cD := cmpArr tolM (vecToCol Dv) (vecToCol m.D) m.scale
-      if !cD.ok then return s!"res=BROKEN:degrees {describe cD}"
+      if !cD.ok then return s!"res=FAIL:degrees-differ-from-model {describe cD}"
       if (← needNat fs "nnz") ≠ m.nnz then return s!"res=BROKEN:sparsity impl={← needNat fs "nnz"} model={m.nnz}"
       if !exactlySymmetric Li then return "res=BROKEN:laplacian-not-symmetric"
       -- row sums vanish (relative to the degree)
@@ -99,7 +99,7 @@ def answerCore (fs : List (String × String)) : E String := do
       if (field? fs "abort").isSome then return "res=FAIL:abort model=ok"
       let Ti ← needMat fs "T" N N
       let c := cmpArr tolM Ti T.data
-      if !c.ok then return s!"res=BROKEN:diffusion-matrix {describe c}"
+      if !c.ok then return s!"res=FAIL:diffusion-matrix-differs-from-model {describe c}"
       return s!"res=ok {describe c} approx={N * N}"
     else if op == "embed" then
       let method ← need fs "method"
@@ -123,27 +123,28 @@ def answerCore (fs : List (String × String)) : E String := do
           | some v => if v.size = N then pure v else throw "rhs size"
           | none => throw "bad rhs"
         let c := cmpArr tolM lhs m.L m.scale
-        if !c.ok then return s!"res=BROKEN:solver-input-lhs {describe c}"
         let cD := cmpArr tolM (vecToCol rhs) (vecToCol m.D) m.scale
-        if !cD.ok then return s!"res=BROKEN:solver-input-rhs {describe cD}"
-        if (← need fs "rhsoff") != "0" then return "res=BROKEN:solver-input-rhs-not-diagonal"
         let hook := s!"{← need fs "calls"},{← need fs "skip"},{← need fs "smallest"},{← need fs "gen"},{← need fs "td"}"
-        if hook != s!"1,1,1,1,{d}" then return s!"res=BROKEN:solver-call calls,skip,smallest,gen,td={hook}"
         let Y ← needMat fs "Y" N d
         let vecs ← needMat fs "vecs" N d
-        if (cmpArr 0 Y vecs).maxdev.m ≠ 0 then return "res=BROKEN:embedding-is-not-the-solver-output"
-        if rhs.any (fun x => x.m ≤ 0) then return "res=SKIP:zero-degree"
-        let B := diagArr rhs
-        -- Rayleigh quotients to decide whether the trivial eigenvalue 0 is separated (connected graph)
+        if m.D.any (fun x => x.m ≤ 0) then return "res=SKIP:zero-degree"
+        -- the property's oracle: Y certified against the MODEL's (L, D)
+        let B := diagArr m.D
         let Yt := transposeArr Y N d
-        let AG := mulArr Yt (mulArr lhs Y N N d) d N d
+        let AG := mulArr Yt (mulArr m.L Y N N d) d N d
         let BG := mulArr Yt (mulArr B Y N N d) d N d
+        if (List.range d).any (fun c => ((BG[c]!)[c]!).m ≤ 0) then return "res=FAIL:certificate:non-positive-D-norm"
         let mu (c : Nat) : Fix := (AG[c]!)[c]! / (BG[c]!)[c]!
         let muMin := (List.range d).foldl (fun acc c => if mu c < acc then mu c else acc) (mu 0)
         let separated := decide (tolPow 12 < muMin)
-        let co := certBottom N d lhs (some B) Y true separated (2 : Nat) tolY tolY tolC
+        let co := certBottom N d m.L (some B) Y true separated (2 : Nat) tolY tolY tolC
         let nvals := ((← need fs "vals").splitOn ",").length
         if !co.ok then return s!"res=FAIL:certificate:{co.why} {certLine co} {describe c}"
+        if !c.ok then return s!"res=BROKEN:solver-input-lhs {describe c}"
+        if !cD.ok then return s!"res=BROKEN:solver-input-rhs {describe cD}"
+        if (← need fs "rhsoff") != "0" then return "res=BROKEN:solver-input-rhs-not-diagonal"
+        if hook != s!"1,1,1,1,{d}" then return s!"res=BROKEN:solver-call calls,skip,smallest,gen,td={hook}"
+        if (cmpArr 0 Y vecs).maxdev.m ≠ 0 then return "res=BROKEN:embedding-is-not-the-solver-output"
         return s!"res=ok {describe c} {certLine co} sep={separated} nvals={nvals} approx={N * N + N + N * d}"
       else
         let t ← needNat fs "t"
@@ -151,7 +152,6 @@ def answerCore (fs : List (String × String)) : E String := do
         if threw != "-" then return s!"res=FAIL:threw what={threw}"
         let lhs ← needMat fs "lhs" N N
         let c := cmpArr tolM lhs T.data
-        if !c.ok then return s!"res=BROKEN:solver-input {describe c}"
         let hook := s!"{← need fs "calls"},{← need fs "skip"},{← need fs "smallest"},{← need fs "gen"},{← need fs "td"}"
         if hook != s!"1,0,0,0,{d + 1}" then return s!"res=BROKEN:solver-call calls,skip,smallest,gen,td={hook}"
         let vecs ← needMat fs "vecs" N (d + 1)
@@ -160,7 +160,7 @@ def answerCore (fs : List (String × String)) : E String := do
           | none => throw "bad vals"
         let Y ← needMat fs "Y" N d
         -- (1) the solver's output is a top-(d+1) orthonormal eigensystem of the model's matrix
-        let negT := lhs.map fun r => r.map fun x => (0 : Fix) - x
+        let negT := T.data.map fun r => r.map fun x => (0 : Fix) - x
         let co := certBottom N (d + 1) negT none vecs false false (1 : Nat) tolY tolY tolC
         if !co.ok then return s!"res=FAIL:eigensystem:{co.why} {certLine co}"
         for cc in [0:d + 1] do
@@ -191,6 +191,7 @@ def answerCore (fs : List (String × String)) : E String := do
         match cmpColsRat YQ P.data N d with
         | some e => return s!"res=FAIL:coordinates {e}"
         | none => pure ()
+        if !c.ok then return s!"res=BROKEN:solver-input {describe c}"
         return s!"res=ok {describe c} {certLine co} approx={N * N + N * d + N}"
     else throw s!"unknown op {op}"
   else throw "N=0"
